@@ -294,6 +294,20 @@ def run(ctx):
             if got != want:
                 ctx.violation(case, want, got, "replace(hostname=...): the host does not have the new value / other components changed")
             ctx.nontriv(("hostname", text, h))
+    # a password under an EMPTY user name (https://:secret@host/, the form redis-style URLs use): repr() still masks it
+    for text in ("https://:s3cret-TOKEN@example.com/x", "http://:pw@[::1]:8080/", "ws://:p%40ss@127.0.0.1/"):
+        for how in ("parsed", "replace"):
+            ctx.count()
+            try:
+                u = URL(text) if how == "parsed" else URL(text.replace(":" + text.split(":", 2)[2].split("@")[0] + "@", "")).replace(
+                    username="", password=text.split(":", 2)[2].split("@")[0])
+                rep, pw = repr(u), u.password
+            except BaseException as e:  # noqa
+                ctx.violation({"url": text, "built_by": how}, "a URL", type(e).__name__ + ": " + str(e), "URL with an empty user name raised %s" % type(e).__name__)
+                continue
+            if pw and pw in rep:
+                ctx.violation({"url": text, "built_by": how}, "password masked", rep, "repr() of the URL contains its password")
+            ctx.nontriv(("empty-user", text, how))
     # query-parameter helpers act as set / replace / remove on the multi-value query
     qs = ["a=1&a=2&b=3", "b=%C3%A9", "", "a=1&a=2&a=3&b=4", "a=1&b=2&a=3&c=4&a=5", "a=0&a=1&a=2", "b=1&a=2&a=3&a=4&a=5&c=6", "a=&a=&a=&z=1",
           "q=caf%E9&page=1&page=2", "b=%FF%FE&a=1", "k%E9y=v&a=1&a=2"]      # (escapes that are not UTF-8: bytes of another charset)
